@@ -74,6 +74,7 @@ struct EncOpts {
 	int share_mode = 0;		// 0 maximal, 1 random in [0,lcp], 2 none
 	int sep_mode = 0;		// 0 random legal, 1 last key, 2 shortest, 3 just below next
 	uint64_t block_size_field = 8192;
+	bool comp_vary = true;	// compressor settings (window, level, strategy, variant, frame checksum) drawn per block
 };
 struct EncInfo { std::vector<uint64_t> block_offs; std::vector<Bytes> seps; uint64_t index_off = 0; };
 Bytes encode(const Entries &e, const EncOpts &o, EncInfo *info = nullptr);
@@ -82,6 +83,7 @@ Bytes encode(const Entries &e, const EncOpts &o, EncInfo *info = nullptr);
 size_t put_varint(uint8_t *p, uint64_t v);
 size_t get_varint(const uint8_t *p, const uint8_t *end, uint64_t *v);	// 0 on failure
 bool compress(int algo, const Bytes &in, Bytes &out);
+bool compress_var(int algo, const Bytes &in, Bytes &out, uint64_t var);	// var 0 = compress()
 bool decompress(int algo, const uint8_t *in, size_t n, Bytes &out);
 
 } // namespace mfmt
